@@ -96,6 +96,20 @@ def _check_source(src):
   c = copy(fd, {'extra': {'k': [1]}})
   if not isinstance(c, FrozenDict) or _plain(c) != dict(want, extra={'k': [1]}):
     return f'copy(add_or_replace) returned {c!r}'
+  import collections as _c
+  import types as _t
+  for wrap_name, wrap in (('MappingProxyType', _t.MappingProxyType), ('UserDict', _c.UserDict), ('ChainMap', lambda d: _c.ChainMap(d))):
+    nested_src = {'k': {'n': 1}}
+    c2 = copy(fd, wrap(nested_src))
+    before_c2 = _plain(c2)
+    try:
+      h2 = hash(c2)
+    except TypeError:
+      h2 = None
+    nested_src['k']['n'] = 99
+    nested_src['k']['extra'] = 1
+    if _plain(c2) != before_c2 or (h2 is not None and hash(c2) != h2):
+      return f'copy(fd, {wrap_name}(...)): mutating the nested dict of the mapping that was passed in changed the copy from {before_c2!r} to {_plain(c2)!r}'
   for k in list(want.keys()):
     v = fd[k]
     if isinstance(v, dict):
@@ -181,6 +195,28 @@ def _check_dataclasses():
     j = jax.jit(lambda t: t.replace(w=t.w * 2))(p)
     if type(j) is not type(p) or float(j.w[0]) != 2.0 or j.k != 3:
       return n, f'{what}: jit did not rebuild the dataclass'
+  # fields declared with one SHARED metadata dict: each field keeps its own pytree_node setting
+  for order in ('static-first', 'data-first'):
+    n += 1
+    md = {'doc': 'shared between the fields'}
+    if order == 'static-first':
+      @struct.dataclass
+      class Q:
+        name: str = struct.field(pytree_node=False, default='dense', metadata=md)
+        w: jax.Array = struct.field(default=None, metadata=md)
+    else:
+      @struct.dataclass
+      class Q:
+        w: jax.Array = struct.field(default=None, metadata=md)
+        name: str = struct.field(pytree_node=False, default='dense', metadata=md)
+    q = Q(w=jnp.ones((2,)))
+    leaves = jax.tree_util.tree_leaves(q)
+    if len(leaves) != 1 or not hasattr(leaves[0], 'shape'):
+      return n, f'struct.field with a shared metadata dict ({order}): pytree leaves are {leaves!r}, expected exactly the data field w'
+    if jax.tree_util.tree_structure(q) == jax.tree_util.tree_structure(q.replace(name='other')):
+      return n, f'struct.field with a shared metadata dict ({order}): changing the static field does not change the treedef'
+    if md != {'doc': 'shared between the fields'}:
+      return n, f'struct.field changed the metadata dict it was given: {md}'
   return n, None
 
 
